@@ -316,7 +316,8 @@ def execute_any(mod, prog):
     """Execute a program, or - for {"multi": [...]} - a sequence of programs
     in this one process (a history across runs: hidden process-global state
     in the library may carry over).  Returns the first violating outcome."""
-    if isinstance(prog, dict) and "multi" in prog:
+    if isinstance(prog, dict) and "multi" in prog \
+            and not prog.get("differential"):
         out = new_outcome()
         for p in prog["multi"]:
             out = execute_any(mod, p)
@@ -399,9 +400,16 @@ def minimise(mod, prog, cls, max_evals=600, max_wall=90):
     budget = [max_evals, time.time() + max_wall]
     if isinstance(prog, dict) and "multi" in prog:
         # history across runs: drop whole runs first, keep the rest as is
+        keep_last = bool(prog.get("differential"))
+        runs = list(prog["multi"])
+        last = runs[-1:] if keep_last else []
+        if keep_last:
+            budget[0] = min(budget[0], 60)
+
         def test_multi(cand):
-            return _same_class(mod, dict(multi=cand), cls)
-        prog["multi"] = ddmin_list(list(prog["multi"]), test_multi, budget)
+            return _same_class(mod, dict(prog, multi=cand + last), cls)
+        pre = ddmin_list(runs[:-1] if keep_last else runs, test_multi, budget)
+        prog["multi"] = pre + last
         return prog, max_evals - budget[0]
     to_trace = getattr(mod, "to_trace", None)
     if to_trace is not None:
